@@ -20,9 +20,13 @@ static std::vector<Conv> convs() {
           {AX86, CallConvId::kCDecl, "cdecl", Platform::kLinux}, {AX86, CallConvId::kFastCall, "fastcall", Platform::kWindows}, {AX86, CallConvId::kRegParm3, "regparm3", Platform::kLinux},
           {AA64, CallConvId::kCDecl, "aapcs64", Platform::kLinux}};
 }
-static const TypeId kTypes[] = {TypeId::kInt32, TypeId::kIntPtr, TypeId::kUInt8, TypeId::kInt16, TypeId::kFloat64, TypeId::kFloat32};
-static const char* kTypeNames[] = {"i32", "iptr", "u8", "i16", "f64", "f32"};
-static const int kNumTypes = 6;
+static const TypeId kTypes[] = {TypeId::kInt32, TypeId::kIntPtr, TypeId::kUInt8, TypeId::kInt16, TypeId::kFloat64, TypeId::kFloat32,
+                                TypeId::kUInt32, TypeId::kInt16, TypeId::kInt32, TypeId::kUInt8};
+// widening entries: the destination is given a wider integer type than the argument has (self-moves needing extension)
+static const TypeId kWiden[] = {TypeId::kVoid, TypeId::kVoid, TypeId::kVoid, TypeId::kVoid, TypeId::kVoid, TypeId::kVoid,
+                                TypeId::kUInt64, TypeId::kInt64, TypeId::kInt64, TypeId::kUInt32};
+static const char* kTypeNames[] = {"i32", "iptr", "u8", "i16", "f64", "f32", "u32>u64", "i16>i64", "i32>i64", "u8>u32"};
+static const int kNumTypes = 10;
 
 struct Case { int conv; std::vector<int> types; std::vector<int> dst; int extra_stack_args;   // dst: 0 own, 1..n incoming of arg (k-1), n+1 foreign A, n+2 foreign B, n+3 stack
   std::string str() const { std::string s = "conv=" + std::to_string(conv) + " pad=" + std::to_string(extra_stack_args) + " types="; for (int t : types) s += std::to_string(t) + ","; s += " dst="; for (int d : dst) s += std::to_string(d) + ","; s += " #"; for (size_t i = 0; i < types.size(); i++) s += std::string(" ") + kTypeNames[types[i]] + "->" + std::to_string(dst[i]); return s; } };
@@ -30,8 +34,10 @@ struct Case { int conv; std::vector<int> types; std::vector<int> dst; int extra_
 static std::string g_why, g_clause;
 #define FAIL(cl, ...) do { char _b[600]; snprintf(_b, sizeof _b, __VA_ARGS__); g_why = _b; g_clause = cl; return 0; } while (0)
 
-static bool is_float(int t) { return t >= 4; }
-static unsigned type_bytes(int t, int arch) { switch (t) { case 0: return 4; case 1: return arch == AX86 ? 4 : 8; case 2: return 1; case 3: return 2; case 4: return 8; default: return 4; } }
+static bool is_float(int t) { return t == 4 || t == 5; }
+static unsigned type_bytes(int t, int arch) { switch (t) { case 0: return 4; case 1: return arch == AX86 ? 4 : 8; case 2: return 1; case 3: return 2; case 4: return 8; case 5: return 4; case 6: return 4; case 7: return 2; case 8: return 4; default: return 1; } }
+static unsigned widen_bytes(int t) { return t == 9 ? 4 : (t >= 6 ? 8 : 0); }
+static bool widen_signed(int t) { return t == 7 || t == 8; }
 static uint64_t token(size_t i) { return 0xA1B2C3D4E5F60718ull * (i + 1) ^ (0x1111111111111111ull * (i + 3)); }
 
 // returns 1 ok, 0 violation (g_why set), 2 skipped (invalid combination), 3 undecided
@@ -44,6 +50,7 @@ static int run_case(const Case& cs) {
   env.set_platform(cv.platform);
   FuncSignature sig(cv.id); sig.set_ret(TypeId::kVoid);
   // optional leading pointer arguments push the interesting ones (partly) onto the stack
+  for (int t : cs.types) if (widen_bytes(t) == 8 && cv.arch == AX86) return 2;
   for (int i = 0; i < cs.extra_stack_args; i++) sig.add_arg(TypeId::kIntPtr);
   for (int t : cs.types) sig.add_arg(kTypes[t]);
   FuncDetail func;
@@ -83,6 +90,7 @@ static int run_case(const Case& cs) {
     // vector-typed virtual registers (new_xmm_ss/sd = kFloat32x1/kFloat64x1), AArch64 uses the scalar float types (new_vec_s/d)
     TypeId dst_type = func.arg(first + i).type_id();
     if (fl && is_x86) dst_type = tb == 8 ? TypeId::kFloat64x1 : TypeId::kFloat32x1;
+    if (widen_bytes(cs.types[i])) { dst_type = kWiden[cs.types[i]]; tb = widen_bytes(cs.types[i]); }
     if (ds.is_reg) {
       Reg r;
       if (is_x86) r = fl ? Reg(x86::xmm(ds.id)) : (tb == 8 ? Reg(x86::gpq(ds.id)) : Reg(x86::gpd(ds.id)));
@@ -140,10 +148,15 @@ static int run_case(const Case& cs) {
   for (size_t i = 0; i < n; i++) {
     unsigned tb = type_bytes(cs.types[i], cv.arch);
     uint64_t want = token(first + i) & msim::mask_n(tb), got;
+    if (widen_bytes(cs.types[i])) {   // the destination type is wider: the value must be extended as the argument's type requires
+      unsigned wb = widen_bytes(cs.types[i]);
+      want = (widen_signed(cs.types[i]) ? uint64_t(msim::sext_n(want, tb)) : want) & msim::mask_n(wb);
+      tb = wb;
+    }
     if (dsts[i].is_reg) { if (dsts[i].vec) { got = 0; memcpy(&got, m.vec[dsts[i].id & 31], 8); } else got = m.gp[dsts[i].id == 63 ? 31 : dsts[i].id]; }
     else got = m.rd(m.sp() + uint64_t(dsts[i].off), 8);
     if ((got & msim::mask_n(tb)) != want)
-      FAIL("wrong-value", "argument %zu (%s) destination %s%u holds %llx, expected low %u bytes %llx", i, kTypeNames[cs.types[i]], dsts[i].is_reg ? (dsts[i].vec ? "vec" : "gp") : "stack+", dsts[i].is_reg ? dsts[i].id : unsigned(dsts[i].off), (unsigned long long)got, tb, (unsigned long long)want);
+      FAIL(widen_bytes(cs.types[i]) ? (!dsts[i].is_reg ? "wrong-value:widen:stack" : cs.dst[i] == 0 ? "wrong-value:widen:reg:self" : cs.dst[i] <= (int)n ? "wrong-value:widen:reg:cycle" : "wrong-value:widen:reg:move") : "wrong-value", "argument %zu (%s) destination %s%u holds %llx, expected low %u bytes %llx", i, kTypeNames[cs.types[i]], dsts[i].is_reg ? (dsts[i].vec ? "vec" : "gp") : "stack+", dsts[i].is_reg ? dsts[i].id : unsigned(dsts[i].off), (unsigned long long)got, tb, (unsigned long long)want);
   }
   c.outcomes.insert(std::string(cv.name) + ":" + std::to_string(m.steps > 12 ? 12 : m.steps));
   return 1;
@@ -171,7 +184,7 @@ int main(int argc, char** argv) {
   long long idx = 0;
   std::vector<Conv> cvs = convs();
   for (size_t ci = 0; ci < cvs.size(); ci++) for (int pad : {0, cvs[ci].arch == AX86 ? 2 : cvs[ci].arch == AX64 ? 5 : 7}) for (int n = 1; n <= maxn; n++) {
-    int ntypes = (n >= 4) ? 4 : kNumTypes;
+    int ntypes = (n >= 4) ? 4 : (n == 3 ? 7 : kNumTypes);
     std::vector<int> types(n, 0), dst(n, 0);
     int nd = n + 4;
     std::function<void(int)> rec_d = [&](int i) {
@@ -192,7 +205,7 @@ int main(int argc, char** argv) {
   c.n("distinct_nontrivial") = c.n("evaluations") - c.n("undecided");
   c.n("states") = c.n("evaluations"); c.n("transitions") = c.n("evaluations"); c.n("traces") = c.n("evaluations");
   c.strs["bound"] = "n<=" + std::to_string(maxn) + " shuffled arguments (optionally preceded by register-filling pointer arguments so that they arrive on the stack), full product of types x destinations";
-  c.strs["rule"] = "types {i32, iptr, u8, i16, f64, f32}; destination of each argument in {own incoming register, incoming register of every other argument (all permutation cycles), "
+  c.strs["rule"] = "types {i32, iptr, u8, i16, f64, f32} + widening destinations {u32>u64, i16>i64, i32>i64, u8>u32}; destination of each argument in {own incoming register, incoming register of every other argument (all permutation cycles), "
                    "two registers foreign to the signature, a stack slot}; emit_prolog + emit_args_assignment interpreted by msim; every destination must hold the low type-size bytes of its argument token";
   c.assumptions.push_back("only the low type-size bytes of a destination are compared (extension beyond the type is not required by the ABIs modelled); msim semantics; scratch-register exhaustion is reached only through the assignments themselves");
   return vh::finish();
